@@ -30,7 +30,14 @@ def _chk(name, cond, info):
         LOG["lapack_bad"].append({"kernel": name, "info": info})
 
 
+FAULT = {"on": False, "hits": 0}
+
+
 def w_svd(a, *args, **kw):
+    if FAULT["on"] and kw.get("lapack_driver") == "gesdd":
+        # injected fault: gesdd did not converge -> optimized_svd retries with gesvd
+        FAULT["hits"] += 1
+        raise scipy.linalg.LinAlgError("injected: SVD did not converge")
     r = REAL["svd"](a, *args, **kw)
     U, S, Vt = r
     k = len(S)
@@ -396,7 +403,12 @@ def main():
     out = []
     for case in payload["cases"]:
         nbad = len(LOG["lapack_bad"])
-        r = run_svd(case, payload["seed"]) if case["kind"] == "svd" else run_eigh(case, payload["seed"])
+        FAULT["on"] = bool(case.get("fault")); h0 = FAULT["hits"]
+        try:
+            r = run_svd(case, payload["seed"]) if case["kind"] == "svd" else run_eigh(case, payload["seed"])
+        finally:
+            FAULT["on"] = False
+        r["fault_hits"] = FAULT["hits"] - h0
         if len(LOG["lapack_bad"]) > nbad:
             r["oracle"].append("LAPACK contract failed: %s" % LOG["lapack_bad"][nbad])
             r["ok"] = False
